@@ -99,6 +99,8 @@ pub const B_RCTRL2: u16 = 256;
 
 #[inline]
 pub fn mods_from_bits(b: u16) -> Modifiers {
+    // `..Default::default()` keeps the harness building if the crate ever adds a flag
+    #[allow(clippy::needless_update)]
     Modifiers {
         lshift: b & B_LSHIFT != 0,
         rshift: b & B_RSHIFT != 0,
@@ -109,6 +111,7 @@ pub fn mods_from_bits(b: u16) -> Modifiers {
         lalt: b & B_LALT != 0,
         ralt: b & B_RALT != 0,
         rctrl2: b & B_RCTRL2 != 0,
+        ..Default::default()
     }
 }
 
